@@ -270,3 +270,182 @@ MAP_DOC = [
     "key the argument equals (or none); OccupiedEntry::{get,get_mut,remove_entry,remove,insert} and VacantEntry::insert act on that entry",
     "key equality is structural on enum/tuple values built by the driver and uninterpreted equality on opaque values",
 ]
+
+
+# ---------------------------------------------------------------- Arc<T> with copy-on-write, map iteration
+def _arc_box(ex, inner, rc=1):
+    b = Node(ex.ctx.fresh_name("arcbox"), "ArcInner")
+    b.variant = ("arcbox", rc)
+    v = Node(b.name + ".v", None)
+    ex.write(v, inner)
+    v.name = b.name + ".v"
+    b.kids["v"] = v
+    return b
+
+
+def new_arc(ex, inner):
+    a = Node(ex.ctx.fresh_name("arc"), "Arc")
+    a.variant = ("arc",)
+    p = Node(a.name + ".ptr", None)
+    p.val = Ptr(_arc_box(ex, inner))
+    a.kids["ptr"] = p
+    return a
+
+
+def arc_node(ex, v):
+    n = v.node if isinstance(v, Ptr) else v
+    if isinstance(n, Node) and not (isinstance(n.variant, tuple) and n.variant and n.variant[0] == "arc") and isinstance(n.val, Ptr):
+        n = n.val.node
+    if not (isinstance(n, Node) and isinstance(n.variant, tuple) and n.variant and n.variant[0] == "arc"):
+        return None
+    return n
+
+
+def m_arc_default_map(ex, st, callee, args, dty, site):
+    return new_arc(ex, new_map(ex))
+
+
+def m_arc_new(ex, st, callee, args, dty, site):
+    return new_arc(ex, args[0])
+
+
+def m_arc_clone(ex, st, callee, args, dty, site):
+    a = arc_node(ex, args[0])
+    if a is None:
+        return NotImplemented
+    box = a.kids["ptr"].val.node
+    box.variant = ("arcbox", box.variant[1] + 1)
+    c = Node(ex.ctx.fresh_name("arc"), "Arc")
+    c.variant = ("arc",)
+    p = Node(c.name + ".ptr", None)
+    p.val = Ptr(box)
+    c.kids["ptr"] = p
+    return c
+
+
+def m_arc_make_mut(ex, st, callee, args, dty, site):
+    a = arc_node(ex, args[0])
+    if a is None:
+        return NotImplemented
+    box = a.kids["ptr"].val.node
+    if box.variant[1] > 1:
+        # shared: clone the contents for this handle (copy-on-write)
+        box.variant = ("arcbox", box.variant[1] - 1)
+        nb = _arc_box(ex, ex.read_node(box.kids["v"]))
+        a.kids["ptr"].val = Ptr(nb)
+        box = nb
+    return Ptr(box.kids["v"])
+
+
+def m_arc_deref(ex, st, callee, args, dty, site):
+    a = arc_node(ex, args[0])
+    if a is None:
+        return NotImplemented
+    return Ptr(a.kids["ptr"].val.node.kids["v"])
+
+
+def _iter_over(ex, items, kind):
+    it = Node(ex.ctx.fresh_name(kind), kind)
+    it.variant = ("mapiter", 0)
+    for i, v in enumerate(items):
+        k = Node(f"{it.name}.item{i}", None)
+        ex.write(k, v)
+        it.kids[("item", i)] = k
+    return it
+
+
+def m_map_keys(ex, st, callee, args, dty, site):
+    mn = map_node(ex, args[0])
+    return _iter_over(ex, [Ptr(e.kids["k"]) for _, e in entries(mn)], "Keys")
+
+
+def m_map_drain(ex, st, callee, args, dty, site):
+    mn = map_node(ex, args[0])
+    items = []
+    for i, e in entries(mn):
+        t = Node(ex.ctx.fresh_name("kv"), "(K,V)")
+        t.kids[0], t.kids[1] = e.kids["k"], e.kids["v"]
+        items.append(t)
+        del mn.kids[("ent", i)]
+    return _iter_over(ex, items, "Drain")
+
+
+def m_mapiter_next(ex, st, callee, args, dty, site):
+    it = args[0].node if isinstance(args[0], Ptr) else args[0]
+    if not (isinstance(it, Node) and isinstance(it.variant, tuple) and it.variant and it.variant[0] == "mapiter"):
+        return NotImplemented
+    pos = it.variant[1]
+    k = it.kids.get(("item", pos))
+    if k is None:
+        return option(ex, False)
+    it.variant = ("mapiter", pos + 1)
+    return option(ex, True, ex.read_node(k))
+
+
+def m_get_key_value(ex, st, callee, args, dty, site):
+    mnode = map_node(ex, args[0])
+
+    def hit(ex_, st_, mn, i, tr):
+        t = Node(ex_.ctx.fresh_name("kvref"), "(&K,&V)")
+        a, b = Node(t.name + ".0", None), Node(t.name + ".1", None)
+        a.val, b.val = Ptr(mn.kids[("ent", i)].kids["k"]), Ptr(mn.kids[("ent", i)].kids["v"])
+        t.kids[0], t.kids[1] = a, b
+        return option(ex_, True, t)
+    return lookup_fork(ex, st, mnode, args[1], hit, lambda e, s, mn, tr: option(e, False))
+
+
+def m_str_eq(ex, st, callee, args, dty, site):
+    c = keq(ex, args[0], args[1])
+    return z3.Not(c) if callee.endswith("::ne") else c
+
+
+ARC_MODELS = [
+    (r"^<Arc<HashMap<.*>> as Default>::default$", m_arc_default_map),
+    (r"^Arc::<.*>::new$", m_arc_new),
+    (r"^<Arc<.*> as Clone>::clone$", m_arc_clone),
+    (r"^Arc::<.*>::make_mut$", m_arc_make_mut),
+    (r"^<Arc<.*> as Deref>::deref$", m_arc_deref),
+    (r"^" + HM + r"::keys$", m_map_keys),
+    (r"^" + HM + r"::drain$", m_map_drain),
+    (r"^" + HM + r"::get_key_value(::<.*>)?$", m_get_key_value),
+    (r"^<std::collections::hash_map::(Keys|Drain)<.*> as IntoIterator>::into_iter$", M.m_identity),
+    (r"^<std::collections::hash_map::(Keys|Drain)<.*> as Iterator>::next$", m_mapiter_next),
+    (r"^<(&)?str as PartialEq(<&?str>)?>::(eq|ne)$", m_str_eq),
+    (r"^<&str as PartialEq<&str>>::(eq|ne)$", m_str_eq),
+    (r"^core::str::traits::<impl PartialEq for str>::(eq|ne)$", m_str_eq),
+]
+ARC_DOC = [
+    "Arc<T>: shared box with a reference count; Arc::clone shares it, Arc::make_mut clones the contents when shared (copy-on-write), Deref reads it",
+    "HashMap::keys / drain / get_key_value iterate / look up the association list; str == str is (solver-decided) equality of the abstract texts",
+]
+
+
+def clone_value(ex, v):
+    """derive(Clone) semantics on abstract values: plain data is copied, an Arc is shared (reference count + 1)"""
+    if isinstance(v, Ptr):
+        return v
+    if not isinstance(v, Node):
+        return v
+    a = arc_node(ex, v)
+    if a is not None and a is v:
+        return m_arc_clone(ex, None, "", [v], None, None)
+    n = Node(v.name, v.ty)
+    n.val, n.variant = v.val, v.variant
+    for k, kid in v.kids.items():
+        c = clone_value(ex, kid)
+        if isinstance(c, Node):
+            n.kids[k] = c
+        else:
+            kk = Node(kid.name, kid.ty)
+            kk.val = c
+            n.kids[k] = kk
+    return n
+
+
+def m_clone_struct(ex, st, callee, args, dty, site):
+    v = args[0]
+    tgt = v.node if isinstance(v, Ptr) else (ex.pointee(v) if isinstance(v, Node) and v.val is None and not v.kids else v)
+    return clone_value(ex, ex.read_node(tgt) if isinstance(tgt, Node) else tgt)
+
+
+ARC_MODELS.append((r" as Clone>::clone$", m_clone_struct))
